@@ -213,6 +213,16 @@ fn main() {
             let (a, b) = (x.min(y), x.max(y));
             format!("{} {} {} {}", a.coefficient(), a.n_frac_digits(), b.coefficient(), b.n_frac_digits())
         });
+        // the remaining comparison operators and the provided Ord methods (each can be overridden)
+        t(&mut out, "cmp_ops", || format!("{} {} {} {} {}", x != y, x <= y, x > y, x >= y, &x >= &y));
+        d(&mut out, "clamp_xy", || Decimal::from(i64v).clamp(x, y));
+        d(&mut out, "clamp_yx", || Decimal::from(i64v).clamp(y, x));
+        d(&mut out, "clamp_self", || x.clamp(y, y));
+        t(&mut out, "sort", || {
+            let mut v = [x, y, Decimal::from(i32v), x];
+            v.sort();
+            v.iter().map(|e| format!("{}e-{}", e.coefficient(), e.n_frac_digits())).collect::<Vec<_>>().join(",")
+        });
         t(&mut out, "ratio", || format!("{:?} {} {}", x.as_integer_ratio(), x.numerator(), x.denominator()));
         t(&mut out, "hash", || {
             use std::hash::{Hash, Hasher};
